@@ -222,6 +222,9 @@ func findRaceExe() string {
 
 // execRace: Args store, family, shard, nshards, reps  or  store, threads, reps.
 func execRace(t *testing.T, job vx.Job) (res vx.Result) {
+	if skipLate(job, &res) {
+		return
+	}
 	exe := findRaceExe()
 	if exe == "" {
 		res.HarnessErr = "no -race build of the c16 harness available (VERIF_RACE_EXE unset and <build dir>/c16.race.test missing)"
